@@ -35,11 +35,35 @@ def HExpr.keys : HExpr → List Name
   | .mapEach e => e.keys
   | _ => []
 
-/-- every `len(object_)` test is guarded by a preceding `isinstance(object_, list)` in the same
-    branch (so it is never applied to a dict) -/
+def onlyList (ks : List Kind) : Bool := ks.all (fun k => match k with | .list => true | _ => false) && !ks.isEmpty
+
+mutual
+/-- the condition being true implies that `object_` is a list -/
+def Cond.impliesList : Cond → Bool
+  | .isInst .self ks => onlyList ks
+  | .not c => Cond.refutesList c
+  | .and a b => Cond.impliesList a || Cond.impliesList b
+  | _ => false
+/-- the condition being false implies that `object_` is a list -/
+def Cond.refutesList : Cond → Bool
+  | .not c => Cond.impliesList c
+  | .or a b => Cond.refutesList a || Cond.refutesList b
+  | _ => false
+end
+
+/-- every `len(object_)` inside the condition is evaluated only when `object_` is known to be a list
+    (`g`: known before the condition; a left conjunct / disjunct adds what its outcome implies) -/
+def Cond.lenOK : Bool → Cond → Bool
+  | g, .lenEq .self _ => g
+  | g, .not c => Cond.lenOK g c
+  | g, .and a b => Cond.lenOK g a && Cond.lenOK (g || a.impliesList) b
+  | g, .or a b => Cond.lenOK g a && Cond.lenOK (g || a.refutesList) b
+  | _, _ => true
+
+/-- every `len(object_)` test is evaluated only where a preceding `isinstance(object_, list)` test (positive, or a
+    negative one on the other branch) has established that `object_` is a list — so it is never applied to a dict -/
 def HExpr.lenGuarded : Bool → HExpr → Bool
-  | g, .ite (.isInst .self [.list]) a b => HExpr.lenGuarded true a && HExpr.lenGuarded g b
-  | g, .ite c a b => (g || !c.lenOfSelf) && HExpr.lenGuarded g a && HExpr.lenGuarded g b
+  | g, .ite c a b => c.lenOK g && HExpr.lenGuarded (g || c.impliesList) a && HExpr.lenGuarded (g || c.refutesList) b
   | _, .mapEach e => HExpr.lenGuarded false e
   | _, _ => true
 
